@@ -3,7 +3,7 @@
 From Coq Require Import List NArith ZArith Bool.
 From Coq Require Import String.
 Import ListNotations.
-From GP Require Import Generated Model.Handshake Model.Stderr Model.Env Model.MuxBroker Model.GrpcMux Model.Serve Model.Kill.
+From GP Require Import Generated Model.Handshake Model.Stderr Model.Env Model.MuxBroker Model.GrpcMux Model.Serve Model.Kill Model.Tls.
 
 Definition gen_hs_params : hs_params :=
   {| hp_core := core_protocol_version;
@@ -58,3 +58,12 @@ Definition gen_kill_params : Kill.kparams :=
   {| Kill.kp_grace := match kill_timers with g :: _ => g | [] => 0%Z end;
      Kill.kp_rpc_deadline := grpc_shutdown_deadline;
      Kill.kp_keepalive := 40%Z |}.
+
+Definition gen_tls_params : Tls.tparams :=
+  {| Tls.tp_host_cfg_at_start := tls_host_cfg_at_start;
+     Tls.tp_host_requires_client := tls_host_requires_client;
+     Tls.tp_host_pins_client_cas := tls_host_pins_client_cas;
+     Tls.tp_host_pins_root_cas := tls_host_pins_root_cas;
+     Tls.tp_plugin_requires_client := tls_plugin_requires_client;
+     Tls.tp_plugin_pins_client_cas := tls_plugin_pins_client_cas;
+     Tls.tp_broker_serves_with_tls := tls_broker_serves_with_tls |}.
